@@ -49,6 +49,8 @@ type Store struct {
 	Commits []*Commit
 	// OnCommit is called (in the committing task) right after a write was accepted.
 	OnCommit func(c *Commit)
+	// OnWatch is called (in the watcher's goroutine) with the value about to be handed to a WatchKey callback.
+	OnWatch func(actor, key string, v interface{})
 
 	mu       sync.Mutex
 	version  map[string]int
@@ -139,6 +141,15 @@ func (st *Store) bump(key string) {
 	st.mu.Lock()
 	st.version[key]++
 	st.mu.Unlock()
+}
+
+// Put overwrites the key with v (a harness write that is not attributed to any actor).
+func (st *Store) Put(key string, v interface{}) error {
+	err := st.Inner.CAS(context.Background(), key, func(interface{}) (interface{}, bool, error) { return v, false, nil })
+	if err == nil {
+		st.bump(key)
+	}
+	return err
 }
 
 // Wipe deletes the key from the backend (the store "lost the ring"); watchers are not notified of
@@ -254,6 +265,7 @@ func (c *Client) WatchKey(ctx context.Context, key string, f func(interface{}) b
 		w.cancelled = true
 		c.st.mu.Unlock()
 	}()
+	c.st.S.NameGoroutine(c.Actor + ":watch")
 	for {
 		select {
 		case <-ctx.Done():
@@ -265,6 +277,9 @@ func (c *Client) WatchKey(ctx context.Context, key string, f func(interface{}) b
 			v, err := c.st.Inner.Get(ctx, key)
 			if err != nil || v == nil {
 				continue
+			}
+			if c.st.OnWatch != nil {
+				c.st.OnWatch(c.Actor, key, v)
 			}
 			if !f(v) {
 				return
